@@ -5,9 +5,10 @@
    Material.attenuation_coefficient returned, as exact data:
      a float as the rational it is, a unit as (multiplier, base-unit powers),
      an exception as its class name, strings as strings.
-   Here the model (Verif.C20.Model on the tables regenerated on this run; the
-   regenerated Material.attenuation_coefficient at exact rationals) is run on
-   the same query and compared:
+   Here the model (Verif.C20.Model on the tables regenerated on this run — evaluated
+   through Run.Fast.scat_lookup_fast / atom_lookup_fast, which Fast.v proves equal to
+   Tie.scat_lookup / atom_lookup for every string; the regenerated
+   Material.attenuation_coefficient at exact rationals) is run on the same query and compared:
      value    == binary64 nearest the decimal field (Dec.round64 . Dec.parse_dec), exactly
      variance == (binary64 nearest the uncertainty field)^2 up to 2^-52 relative (libm pow)
      unit     == the unit scipp itself parses from the column's unit name, and of the right
@@ -17,7 +18,7 @@
 From Coq Require Import QArith Qabs ZArith NArith String Ascii List Bool.
 From Verif.Sem Require Import Field Val QInst Corr.
 From Verif.C20 Require Import Dec Model Spec Proofs SemExt.
-From Run Require Import GenTables GenAtoms GenMaterial Tie.
+From Run Require Import GenTables GenAtoms GenMaterial Tie Fast.
 Import ListNotations.
 Open Scope string_scope.
 
@@ -102,7 +103,7 @@ Fixpoint check_fields (ut : unit_table) (i : nat) (ms : list (option scalar)) (o
   end.
 
 Definition check_scat (ut : unit_table) (name : string) (ascii : bool) (o : sobs) : string :=
-  match scat_lookup name, o with
+  match scat_lookup_fast name, o with
   | Ok p, SOk iso fs =>
       if negb ascii then "accepted-non-ascii"
       else if negb (String.eqb iso name && String.eqb (sc_isotope p) name) then "isotope-attribute"
@@ -114,7 +115,7 @@ Definition check_scat (ut : unit_table) (name : string) (ascii : bool) (o : sobs
   | Err _, SOk _ _ => "impl-accepts-unknown-name"
   end.
 Definition check_atom (ut : unit_table) (name : string) (ascii : bool) (o : aobs) : string :=
-  match atom_lookup name, o with
+  match atom_lookup_fast name, o with
   | Ok a, AOk iso z w m =>
       if negb ascii then "accepted-non-ascii"
       else if negb (String.eqb iso name && String.eqb (a_isotope a) name) then "isotope-attribute"
